@@ -51,7 +51,7 @@ def run_case(ctx):
     src = ctx.src
     common.draw_env(ctx)
     common.prelude(ctx)
-    m = world.gen_world(src, scale=("hugebox", "manyboxes", "farcorner", "manyfields"))
+    m = world.gen_world(src, scale=("hugebox", "manyboxes", "farcorner", "manyfields"), lowprec_ok=True)
     path, _ = common.materialise(ctx, m)
     req, names = draw_selection(src, m)
     limit = None
@@ -76,7 +76,10 @@ def run_case(ctx):
     for lv in range(expect.nlev):
         mins, maxs = m.minmax_rows(lv)
         mins_maxs[lv] = ([r[idx] for r in mins], [r[idx] for r in maxs])
-    common.check_output_plotfile(ctx, sig, out_abs, expect, minmax=mins_maxs)
+    # (geometry printed with 6 digits does not satisfy taste's box-coordinate test to begin with: its
+    # tolerance is absolute near 0; that is a statement about the input, not about colander)
+    common.check_output_plotfile(ctx, sig, out_abs, expect, minmax=mins_maxs,
+                                 taste_coords=not getattr(m, "lowprec", False))
     multi = any(len({f for f, _ in lay}) >= 2 for lay in m.layout) or not m.is_monotone()
     if multi or names != m.fields or (limit is not None and limit < m.nlev - 1):
         ctx.nontrivial = True
